@@ -5,7 +5,7 @@
    the translator read from hilbert_curve.rs / z_curve.rs (Gen/SfcGen.v). *)
 From Coupe Require Import Lib.Prelude Lib.SFloat Lib.Sorting Model.SfcPart Model.ZGeom Proofs.ZGeomProofs
   Proofs.SortingProofs Proofs.SfcProofs Proofs.ZCurveProofs Proofs.ZCheckProofs Proofs.ZOracleProofs Proofs.WqTermProofs Gen.SfcGen
-  Lib.Rayon Model.SfcSched Proofs.SfcSchedProofs.
+  Lib.Rayon Model.SfcSched Proofs.SfcSchedProofs Proofs.F64AddExact Proofs.SfcSchedExact Proofs.WqNonTermination.
 From Coq Require Import Floats.SpecFloat Sorting.Permutation Sorting.Sorted.
 Open Scope nat_scope.
 
@@ -92,11 +92,53 @@ Theorem C09_hilbert_no_panic : forall tol maxo order fuel idx ws k p0,
 Proof. exact hilbert_partition_no_panic. Qed.
 Print Assumptions C09_hilbert_no_panic.
 
+(* REFUTED for the comparison with the default absolute epsilon (flag [false] of
+   the flag-parametric model [..._g]; /repo before the repair): the quantile
+   search does NOT terminate for every input in the contract.  Witness: curve indices 0, 4, 8, every weight 1e-16 (finite,
+   positive), 5 parts: the model is out of fuel for EVERY amount of fuel (the
+   loop state alternates between two states from the third round on).  Cause:
+   `approx::abs_diff_eq!` compares partial sums with the ABSOLUTE tolerance
+   f64::EPSILON, so with a total weight of that magnitude every sum "equals"
+   every target.  Confirmed on the real code (docs/C09.md); this is a finding
+   for C01's "no hang" clause, known-finding class hilbert-tiny-weights-hang. *)
+Theorem C09_quantiles_terminate_refuted :
+  exists (pts : list N) (ws : list spec_float) (n : nat),
+    pts <> [] /\ 3 <= n /\ Forall (fun w => is_finite w = true /\ flt fzero w = true) ws
+    /\ length ws = length pts
+    /\ forall fuel, weighted_quantiles_g false (f64_of_bits hilbert_split_tolerance_bits) fuel pts ws n = OutOfFuel.
+Proof.
+  exists wit_idx, wit_ws, wit_n.
+  split; [discriminate|]. split; [repeat constructor|].
+  split; [repeat constructor; vm_compute; reflexivity|]. split; [reflexivity|].
+  exact weighted_quantiles_nontermination.
+Qed.
+Print Assumptions C09_quantiles_terminate_refuted.
+Theorem C09_hilbert_partition_hangs : forall order fuel p0,
+  (order <= hilbert_max_order_2d)%N -> p0 <> [] ->
+  hilbert_partition_g false (f64_of_bits hilbert_split_tolerance_bits) hilbert_max_order_2d order fuel
+    [0; 4; 8]%N (repeat (f64_of_bits 4367597403136100796%N) 3) 5 p0 = OutOfFuel.
+Proof. exact (hilbert_partition_nontermination hilbert_max_order_2d). Qed.
+Print Assumptions C09_hilbert_partition_hangs.
+
+(* with the repaired comparison (epsilon = f64::EPSILON * min(1, total weight), flag [true])
+   the same input returns (the repaired real function returns the same positions) *)
+Example C09_witness_returns_with_scaled_epsilon :
+  weighted_quantiles_g true (f64_of_bits hilbert_split_tolerance_bits) 100 [0; 4; 8]%N
+    (repeat (f64_of_bits 4367597403136100796%N) 3) 5 = Ok [0; 3; 3; 7]%N.
+Proof. vm_compute. reflexivity. Qed.
+
+(* the model of the current source = the flag-parametric model at the flag the translator read *)
+Theorem C09_hilbert_partition_is_g : forall tol maxo order fuel idx ws k p0,
+  hilbert_partition tol maxo order fuel idx ws k p0
+  = hilbert_partition_g hilbert_eps_scaled tol maxo order fuel idx ws k p0.
+Proof. exact hilbert_partition_is_g. Qed.
+Print Assumptions C09_hilbert_partition_is_g.
+
 (* PARTIAL: termination of the quantile search is proved for part_count <= 2
    only (a single split is a plain bisection; 66 rounds suffice for u64
-   indices).  For part_count >= 3 termination is an OPEN obligation: a split's
-   bounds are also reset from the other splits' positions, which need not be
-   sorted, and no decreasing measure is known (DESIGN §7 C01). *)
+   indices).  For part_count >= 3 termination is FALSE for the old comparison
+   (C09_quantiles_terminate_refuted above); for the repaired comparison it is
+   unproved and unrefuted. *)
 Theorem C09_quantiles_terminate_partial : forall tol fuel pts ws n,
   pts <> [] -> Forall (fun x => (x < 2 ^ 64)%N) pts -> 1 <= n <= 2 -> 66 <= fuel ->
   exists splits, weighted_quantiles tol fuel pts ws n = Ok splits.
@@ -116,8 +158,10 @@ Print Assumptions C09_hilbert_returns_partial.
    the indices are the true minimum/maximum whatever the schedule).
    For integer-valued non-negative weights with total <= 2^53 ([exact_sums])
    the result does not depend on the trees, given the per-point curve indices.
-   The premise [f64_add_exact_on_integers] is DESIGN §6's named assumption
-   "f64 + exact on integers < 2^53" (not proved from SpecFloat here). *)
+   The premise [f64_add_exact_on_integers] is PROVED below
+   (C09_f64_add_exact_on_integers); the statements with the premise are kept
+   (axiom-free, and for Properties/C06.v), the premise-free ones are the
+   [..._proved] theorems. *)
 Theorem C09_hilbert_sched_indep : f64_add_exact_on_integers ->
   forall ws, exact_sums ws ->
   forall ts1 ts2 tol maxo order fuel idx k p0,
@@ -125,6 +169,38 @@ Theorem C09_hilbert_sched_indep : f64_add_exact_on_integers ->
   = hilbert_partition_s ts2 tol maxo order fuel idx ws k p0.
 Proof. exact hilbert_sched_indep. Qed.
 Print Assumptions C09_hilbert_sched_indep.
+
+(* The premise is a theorem: binary64 addition (SpecFloat.SFadd 53 1024, what
+   the model executes) is exact on integers of magnitude <= 2^53 whose sum has
+   magnitude <= 2^53 -- proved through Flocq (Bplus_correct, integers below
+   2^53 are in the format), hence with the axioms of Coq's classical reals. *)
+Theorem C09_f64_add_exact : forall a b : Z,
+  (Z.abs a <= 2 ^ 53)%Z -> (Z.abs b <= 2 ^ 53)%Z -> (Z.abs (a + b) <= 2 ^ 53)%Z ->
+  f64_add (f64_of_Z a) (f64_of_Z b) = f64_of_Z (a + b).
+Proof. exact f64_add_exact. Qed.
+Print Assumptions C09_f64_add_exact.
+Theorem C09_f64_add_exact_on_integers : f64_add_exact_on_integers.
+Proof. exact f64_add_exact_on_integers_holds. Qed.
+
+(* schedule independence WITHOUT the premise *)
+Theorem C09_hilbert_sched_indep_proved : forall ws, exact_sums ws ->
+  forall ts1 ts2 tol maxo order fuel idx k p0,
+  hilbert_partition_s ts1 tol maxo order fuel idx ws k p0
+  = hilbert_partition_s ts2 tol maxo order fuel idx ws k p0.
+Proof. exact hilbert_sched_indep_proved. Qed.
+Print Assumptions C09_hilbert_sched_indep_proved.
+Theorem C09_hilbert_sched_is_sequential_proved : forall ts tol maxo order fuel idx zs k p0,
+  Forall (fun z => (0 <= z)%Z) zs -> (sumZ zs <= 2 ^ 53)%Z ->
+  hilbert_partition_s ts tol maxo order fuel idx (map oz zs) k p0
+  = hilbert_partition tol maxo order fuel idx (map oz zs) k p0.
+Proof. exact hilbert_partition_s_seq_proved. Qed.
+Theorem C09_histogram_sched_indep_proved : forall t positions n pts zs,
+  Forall (fun z => (0 <= z)%Z) zs -> (sumZ zs <= 2 ^ 53)%Z ->
+  part_weights_sched t positions n pts (map oz zs)
+  = part_weights_of positions pts (map oz zs) (repeat fzero n).
+Proof. exact part_weights_sched_seq_proved. Qed.
+Print Assumptions C09_hilbert_sched_is_sequential_proved.
+Print Assumptions C09_histogram_sched_indep_proved.
 
 (* ... and equals the sequential model the correspondence run executes *)
 Theorem C09_hilbert_sched_is_sequential : f64_add_exact_on_integers ->
@@ -157,6 +233,20 @@ Example C09_nonvacuous_sched :
   hilbert_partition_s (fun _ => Node 3 (Node 1 Leaf Leaf) (Node 2 Leaf Leaf)) (f64_of_bits hilbert_split_tolerance_bits) 32 3 100 idx ws 4 (repeat 9%N 8)
   = hilbert_partition_s (fun _ => Leaf) (f64_of_bits hilbert_split_tolerance_bits) 32 3 100 idx ws 4 (repeat 9%N 8).
 Proof. vm_compute. reflexivity. Qed.
+
+(* fuel is only a bound: a result obtained with some fuel is the result with any
+   larger fuel -- so "the model returns Ok with fuel F on this case" (checked on
+   every exact correspondence case with F = 2000) means that the unbounded
+   `while` loop of the model terminates on that case with that result *)
+Theorem C09_quantiles_fuel_mono : forall tol fuel fuel' pts ws n r,
+  weighted_quantiles tol fuel pts ws n = Ok r -> fuel <= fuel' -> weighted_quantiles tol fuel' pts ws n = Ok r.
+Proof. exact weighted_quantiles_fuel_mono. Qed.
+Theorem C09_hilbert_fuel_mono : forall tol maxo order fuel fuel' idx ws k p0 r,
+  hilbert_partition tol maxo order fuel idx ws k p0 = Ok r -> fuel <= fuel' ->
+  hilbert_partition tol maxo order fuel' idx ws k p0 = Ok r.
+Proof. exact hilbert_partition_fuel_mono. Qed.
+Print Assumptions C09_quantiles_fuel_mono.
+Print Assumptions C09_hilbert_fuel_mono.
 
 (* the checker used on the implementation's outputs decides the property *)
 Theorem C09_check_monotone_ok : forall idx parts,
